@@ -20,6 +20,19 @@ Notation lenN := Spec.lenN.
 Local Ltac Zify.zify_post_hook ::= idtac.
 (* several coqc processes share .lia.cache in this directory; do not depend on it *)
 Unset Lia Cache.
+(* lia (8.16) expands every div/mod term into its defining equations, which makes the
+   power-of-two arithmetic below very slow; [flia] hides those terms first *)
+Ltac absdm := repeat match goal with
+  | |- context [N.modulo ?a ?b] =>
+    let x := fresh "m" in set (x := N.modulo a b) in *; clearbody x
+  | H : context [N.modulo ?a ?b] |- _ =>
+    let x := fresh "m" in set (x := N.modulo a b) in *; clearbody x
+  | |- context [N.div ?a ?b] =>
+    let x := fresh "q" in set (x := N.div a b) in *; clearbody x
+  | H : context [N.div ?a ?b] |- _ =>
+    let x := fresh "q" in set (x := N.div a b) in *; clearbody x
+  end.
+Ltac flia := absdm; lia.
 Open Scope N_scope.
 
 Local Opaque two64.
@@ -57,7 +70,7 @@ Proof. apply N.mod_lt, pow2_nz. Qed.
 Lemma div_succ_same i Q : Q <> 0 -> i mod Q + 1 < Q -> (i + 1) / Q = i / Q.
 Proof.
   intros HQ Hlt. symmetry. apply (N.div_unique (i + 1) Q (i / Q) (i mod Q + 1)); [exact Hlt|].
-  pose proof (N.div_mod i Q HQ). lia.
+  pose proof (N.div_mod i Q HQ) as Hd. clear - Hd. flia.
 Qed.
 
 Lemma high_same x y n k : x / 2 ^ n = y / 2 ^ n -> n <= k ->
@@ -145,6 +158,46 @@ Qed.
 (* ------------------------------------------------------------------------------------ *)
 (* C. the streaming loop                                                                 *)
 
+Lemma nat_of_succ j : nat_of (j + 1) = S (nat_of j).
+Proof. unfold nat_of. lia. Qed.
+
+Lemma tmp_get_ok tmp j : (nat_of j < length tmp)%nat ->
+  tmp_get tmp j = OK (nth (nat_of j) tmp zero_chunk).
+Proof.
+  intros Hj. unfold tmp_get.
+  rewrite (nth_error_nth' tmp zero_chunk Hj). reflexivity.
+Qed.
+
+Lemma tmp_set_ok tmp j c : (nat_of j < length tmp)%nat ->
+  tmp_set tmp j c = OK (list_set tmp (nat_of j) c).
+Proof.
+  intros Hj. unfold tmp_set.
+  destruct (N.ltb_spec j (N.of_nat (length tmp))) as [_|Hge]; [reflexivity|].
+  unfold nat_of in Hj. lia.
+Qed.
+
+Lemma climb_ok ld (L : list chunk) : forall k j tmp, j + N.of_nat k = ld ->
+  length tmp = S (nat_of ld) -> lenN L <= 2 ^ j ->
+  nth (nat_of j) tmp zero_chunk = mv (nat_of j) L ->
+  exists tmp', climb H zh k j tmp = OK tmp' /\
+               nth (nat_of ld) tmp' zero_chunk = mv (nat_of ld) L /\
+               length tmp' = S (nat_of ld).
+Proof.
+  induction k as [|k IH]; intros j tmp Hjk Hlen HL Hn.
+  - exists tmp. change (N.of_nat 0) with 0 in Hjk. rewrite N.add_0_r in Hjk. subst ld.
+    cbn [climb]. repeat split; assumption.
+  - cbn [climb].
+    rewrite tmp_get_ok by (rewrite Hlen; unfold nat_of; lia). cbn [bind].
+    rewrite tmp_set_ok by (rewrite Hlen; unfold nat_of; lia). cbn [bind].
+    apply IH.
+    + lia.
+    + rewrite list_set_len. exact Hlen.
+    + pose proof (pow2_succ j). lia.
+    + rewrite nth_list_set_eq by (rewrite Hlen; unfold nat_of; lia).
+      rewrite Hn, nat_of_succ. symmetry. apply mv_pad.
+      unfold nat_of. rewrite N2Nat.id. exact HL.
+Qed.
+
 Section Loop.
 Variable leaf : N -> chunk.
 
@@ -170,8 +223,6 @@ Qed.
 
 Definition B (j a n : N) : chunk := mv (nat_of j) (rng a n).
 
-Lemma nat_of_succ j : nat_of (j + 1) = S (nat_of j).
-Proof. unfold nat_of. lia. Qed.
 
 Lemma B_join j a m : m <= 2 ^ j ->
   B (j + 1) a (2 ^ j + m) = H (B j a (2 ^ j)) (B j (a + 2 ^ j) m).
@@ -195,20 +246,6 @@ Proof. unfold B. rewrite rng_0, Hzh. reflexivity. Qed.
 Definition Inv (i : N) (tmp : list chunk) : Prop :=
   forall k, N.testbit i k = true -> nth (nat_of k) tmp zero_chunk = B k (st k i) (2 ^ k).
 
-Lemma tmp_get_ok tmp j : (nat_of j < length tmp)%nat ->
-  tmp_get tmp j = OK (nth (nat_of j) tmp zero_chunk).
-Proof.
-  intros Hj. unfold tmp_get.
-  rewrite (nth_error_nth' tmp zero_chunk Hj). reflexivity.
-Qed.
-
-Lemma tmp_set_ok tmp j c : (nat_of j < length tmp)%nat ->
-  tmp_set tmp j c = OK (list_set tmp (nat_of j) c).
-Proof.
-  intros Hj. unfold tmp_set.
-  destruct (N.ltb_spec j (N.of_nat (length tmp))) as [_|Hge]; [reflexivity|].
-  unfold nat_of in Hj. lia.
-Qed.
 
 Section Merge.
 Variables (count depth ld : N) (tmp : list chunk).
@@ -222,50 +259,50 @@ Lemma merge_leaf i : i < count -> count <= 2 ^ ld -> i < 2 ^ 64 -> Inv i tmp ->
                length tmp' = length tmp /\ Inv (i + 1) tmp'.
 Proof.
   intros Hic Hcl Hi64 HInv.
-  induction fuel as [|f IH]; intros j h Hfuel Hlow Hh.
-  - exfalso.
-    assert (2 ^ j <= 2 ^ 64).
-    { pose proof (N.mod_le i (2 ^ j) (pow2_nz j)). lia. }
-    apply pow2_le_inv in H0. lia.
-  - assert (Hj64 : j <= 64).
-    { apply pow2_le_inv. pose proof (N.mod_le i (2 ^ j) (pow2_nz j)). lia. }
-    assert (Hjld : j <= ld).
-    { apply pow2_le_inv. pose proof (N.mod_le i (2 ^ j) (pow2_nz j)). lia. }
+  induction fuel as [|f IH]; intros j h Hfuel Hlow Hh;
+    pose proof (N.mod_le i (2 ^ j) (pow2_nz j)) as Hmle;
+    assert (Hj64 : j <= 64) by (apply pow2_le_inv; clear - Hmle Hlow Hi64; flia).
+  - exfalso. clear - Hfuel Hj64. flia.
+  - assert (Hjld : j <= ld) by (apply pow2_le_inv; clear - Hmle Hlow Hic Hcl; flia).
     cbn [merge_loop]. rewrite bit_test by assumption.
     pose proof (mod_pow2_succ i j) as Hms. pose proof (st_split i j) as Hst.
     pose proof (pow2_succ j) as Hp.
     destruct (N.testbit i j) eqn:Hbit; cbn [negb N.b2n] in *.
     + (* right side: keep merging up *)
+      rewrite N.mul_1_r in Hms.
       assert (Hjlt : j < ld).
-      { apply pow2_lt_inv. apply testbit_true_ge in Hbit. lia. }
-      rewrite tmp_get_ok by (rewrite Hlen; unfold nat_of; lia).
+      { apply pow2_lt_inv. apply testbit_true_ge in Hbit. clear - Hbit Hic Hcl. flia. }
+      rewrite tmp_get_ok by (rewrite Hlen; unfold nat_of; clear - Hjlt; flia).
       cbn [bind]. apply IH.
-      * lia.
-      * lia.
+      * clear - Hfuel. flia.
+      * clear - Hms Hlow Hp. flia.
       * rewrite (HInv j Hbit), Hh.
-        replace (i + 1 - 2 ^ (j + 1)) with (st j i) by lia.
-        replace (i + 1 - 2 ^ j) with (st j i + 2 ^ j) by lia.
-        replace (2 ^ (j + 1)) with (2 ^ j + 2 ^ j) by lia.
-        symmetry. apply B_join. lia.
+        replace (i + 1 - 2 ^ (j + 1)) with (st j i) by (clear - Hms Hlow Hp Hst; flia).
+        replace (i + 1 - 2 ^ j) with (st j i + 2 ^ j) by (clear - Hms Hlow Hp Hst; flia).
+        replace (2 ^ (j + 1)) with (2 ^ j + 2 ^ j) by (clear - Hp; flia).
+        symmetry. apply B_join. apply N.le_refl.
     + (* left side of the next combination: store *)
-      replace (i =? count) with false by (symmetry; apply N.eqb_neq; lia).
-      cbn [andb]. rewrite tmp_set_ok by (rewrite Hlen; unfold nat_of; lia).
+      rewrite N.mul_0_r, N.add_0_r in Hms.
+      replace (i =? count) with false by (symmetry; apply N.eqb_neq; clear - Hic; flia).
+      cbn [andb]. rewrite tmp_set_ok by (rewrite Hlen; unfold nat_of; clear - Hjld; flia).
       eexists. split; [reflexivity|]. split; [apply list_set_len|].
       intros k Hk.
       assert (Hdiv : (i + 1) / 2 ^ (j + 1) = i / 2 ^ (j + 1)).
-      { apply div_succ_same; [apply pow2_nz|]. pose proof (pow2_pos j). lia. }
+      { apply div_succ_same; [apply pow2_nz|]. pose proof (pow2_pos j) as Hpp.
+        clear - Hms Hlow Hp Hpp. flia. }
       assert (Hsteq : st j (i + 1) = st j i) by (unfold st; rewrite Hdiv; reflexivity).
       pose proof (st_split (i + 1) j) as Hst'.
+      assert (Hm : (i + 1) mod 2 ^ (j + 1) = 2 ^ j)
+        by (clear - Hst' Hsteq Hst Hms Hlow; flia).
       destruct (N.lt_trichotomy k j) as [Hlt|[->|Hgt]].
       * (* below j: bit k of i+1 is clear *)
         exfalso.
-        assert (Hm : (i + 1) mod 2 ^ (j + 1) = 2 ^ j) by lia.
-        rewrite <- (N.mod_pow2_bits_low (i + 1) (j + 1) k) in Hk by lia.
-        rewrite Hm, N.pow2_bits_false in Hk by lia. discriminate.
-      * rewrite nth_list_set_eq by (rewrite Hlen; unfold nat_of; lia).
-        rewrite Hh. f_equal. lia.
-      * rewrite nth_list_set_neq by (unfold nat_of; lia).
-        destruct (high_same (i + 1) i (j + 1) k Hdiv) as [Hb Hd]; [lia|].
+        rewrite <- (N.mod_pow2_bits_low (i + 1) (j + 1) k) in Hk by (clear - Hlt; flia).
+        rewrite Hm, N.pow2_bits_false in Hk by (clear - Hlt; flia). discriminate.
+      * rewrite nth_list_set_eq by (rewrite Hlen; unfold nat_of; clear - Hjld; flia).
+        rewrite Hh. f_equal. clear - Hst' Hsteq Hm. flia.
+      * rewrite nth_list_set_neq by (unfold nat_of; clear - Hgt; flia).
+        destruct (high_same (i + 1) i (j + 1) k Hdiv) as [Hb Hd]; [clear - Hgt; flia|].
         rewrite Hb in Hk. rewrite (HInv k Hk). unfold st. rewrite Hd. reflexivity.
 Qed.
 
@@ -280,30 +317,32 @@ Lemma merge_pad : count < 2 ^ depth -> depth <= ld -> depth <= 64 -> count < 2 ^
 Proof.
   intros Hcd Hdl Hd64 Hc64 HInv.
   induction fuel as [|f IH]; intros j h Hfuel Hjd Hh.
-  - exfalso. lia.
-  - cbn [merge_loop]. rewrite bit_test by (try assumption; lia).
+  - exfalso. clear - Hfuel Hjd Hd64. flia.
+  - cbn [merge_loop]. rewrite bit_test by (try assumption; clear - Hjd Hd64; flia).
     pose proof (mod_pow2_succ count j) as Hms. pose proof (st_split count j) as Hst.
     pose proof (pow2_succ j) as Hp. pose proof (mod_pow2_lt count j) as Hml.
+    pose proof (N.mod_le count (2 ^ j) (pow2_nz j)) as Hmle.
     destruct (N.testbit count j) eqn:Hbit; cbn [negb N.b2n] in *.
-    + assert (Hjlt : j < depth).
-      { apply pow2_lt_inv. apply testbit_true_ge in Hbit. lia. }
-      rewrite tmp_get_ok by (rewrite Hlen; unfold nat_of; lia).
-      cbn [bind]. apply IH; [lia|lia|].
+    + rewrite N.mul_1_r in Hms.
+      assert (Hjlt : j < depth).
+      { apply pow2_lt_inv. apply testbit_true_ge in Hbit. clear - Hbit Hcd. flia. }
+      rewrite tmp_get_ok by (rewrite Hlen; unfold nat_of; clear - Hjlt Hdl; flia).
+      cbn [bind]. apply IH; [clear - Hfuel; flia|clear - Hjlt; flia|].
       rewrite (HInv j Hbit), Hh.
-      replace (count - count mod 2 ^ (j + 1)) with (st j count) by lia.
-      replace (count - count mod 2 ^ j) with (st j count + 2 ^ j) by lia.
-      replace (count mod 2 ^ (j + 1)) with (2 ^ j + count mod 2 ^ j) by lia.
-      symmetry. apply B_join. lia.
-    + rewrite N.eqb_refl. cbn [andb].
+      replace (count - count mod 2 ^ (j + 1)) with (st j count) by (clear - Hst; flia).
+      replace (count - count mod 2 ^ j) with (st j count + 2 ^ j) by (clear - Hst Hms; flia).
+      replace (count mod 2 ^ (j + 1)) with (2 ^ j + count mod 2 ^ j) by (clear - Hms; flia).
+      symmetry. apply B_join. clear - Hml. flia.
+    + rewrite N.mul_0_r, N.add_0_r in Hms.
+      rewrite N.eqb_refl. cbn [andb].
       destruct (N.ltb_spec j depth) as [Hjlt|Hjge].
-      * apply IH; [lia|lia|]. rewrite Hh.
-        replace (count mod 2 ^ (j + 1)) with (count mod 2 ^ j) by lia.
-        symmetry. rewrite Hzh. rewrite <- Hzh. apply B_pad. lia.
-      * assert (j = depth) as -> by lia.
-        rewrite tmp_set_ok by (rewrite Hlen; unfold nat_of; lia).
+      * apply IH; [clear - Hfuel; flia|clear - Hjlt; flia|]. rewrite Hh, Hms.
+        symmetry. apply B_pad. clear - Hml. flia.
+      * assert (j = depth) as -> by (clear - Hjd Hjge; flia).
+        rewrite tmp_set_ok by (rewrite Hlen; unfold nat_of; clear - Hdl; flia).
         eexists. split; [reflexivity|]. split; [apply list_set_len|].
-        rewrite nth_list_set_eq by (rewrite Hlen; unfold nat_of; lia).
-        rewrite Hh, N.mod_small by exact Hcd. f_equal. lia.
+        rewrite nth_list_set_eq by (rewrite Hlen; unfold nat_of; clear - Hdl; flia).
+        rewrite Hh, N.mod_small by exact Hcd. f_equal. clear. flia.
 Qed.
 
 End Merge.
@@ -316,35 +355,18 @@ Lemma leaves_loop_ok count depth ld : count <= 2 ^ ld -> count < 2 ^ 64 ->
                length tmp' = S (nat_of ld) /\ Inv count tmp'.
 Proof.
   intros Hcl Hc64. induction k as [|k IH]; intros i tmp Hik Hlen HInv.
-  - exists tmp. replace count with i by lia. cbn [leaves_loop]. auto.
+  - exists tmp. change (N.of_nat 0) with 0 in Hik. rewrite N.add_0_r in Hik. subst count.
+    cbn [leaves_loop]. repeat split; assumption.
   - cbn [leaves_loop]. unfold merge.
-    destruct (merge_leaf count depth ld tmp Hlen i) with (fuel := 66%nat) (j := 0) (h := leaf i)
-      as (tmp1 & Hm & Hl1 & HInv1); try assumption; try lia.
-    + rewrite N.mod_1_r. reflexivity.
+    assert (Hic : i < count) by lia. assert (Hi64 : i < 2 ^ 64) by lia.
+    destruct (merge_leaf count depth ld tmp Hlen i Hic Hcl Hi64 HInv 66%nat 0 (leaf i))
+      as (tmp1 & Hm & Hl1 & HInv1).
+    + lia.
+    + rewrite N.pow_0_r, N.mod_1_r. reflexivity.
     + rewrite N.pow_0_r. replace (i + 1 - 1) with i by lia. symmetry. apply B_0_1.
     + rewrite Hm. cbn [bind]. apply IH; [lia|congruence|exact HInv1].
 Qed.
 
-Lemma climb_ok ld (L : list chunk) : forall k j tmp, j + N.of_nat k = ld ->
-  length tmp = S (nat_of ld) -> lenN L <= 2 ^ j ->
-  nth (nat_of j) tmp zero_chunk = mv (nat_of j) L ->
-  exists tmp', climb H zh k j tmp = OK tmp' /\
-               nth (nat_of ld) tmp' zero_chunk = mv (nat_of ld) L /\
-               length tmp' = S (nat_of ld).
-Proof.
-  induction k as [|k IH]; intros j tmp Hjk Hlen HL Hn.
-  - exists tmp. replace ld with j by lia. cbn [climb]. auto.
-  - cbn [climb].
-    rewrite tmp_get_ok by (rewrite Hlen; unfold nat_of; lia). cbn [bind].
-    rewrite tmp_set_ok by (rewrite Hlen; unfold nat_of; lia). cbn [bind].
-    apply IH.
-    + lia.
-    + rewrite list_set_len. exact Hlen.
-    + pose proof (pow2_succ j). lia.
-    + rewrite nth_list_set_eq by (rewrite Hlen; unfold nat_of; lia).
-      rewrite Hn, nat_of_succ. symmetry. apply mv_pad.
-      unfold nat_of. rewrite N2Nat.id. exact HL.
-Qed.
 
 End Loop.
 
@@ -414,9 +436,13 @@ Proof.
       unfold st. rewrite <- Heq.
       rewrite N.div_small by (apply pow2_lt_mono; lia). lia.
     - unfold merge.
-      destruct (merge_pad leaf count depth ld tmp1 Hlen1) with (fuel := 66%nat) (j := 0) (h := zh 0)
-        as (tmp2 & Hm & Hl2 & Hn2); try assumption; try lia.
-      + rewrite N.mod_1_r. symmetry. apply B_0_0.
+      assert (Hclt : count < 2 ^ depth) by lia.
+      assert (Hd64 : depth <= 64) by lia.
+      destruct (merge_pad leaf count depth ld tmp1 Hlen1 Hclt Hdl Hd64 Hc64 HInv1 66%nat 0 (zh 0))
+        as (tmp2 & Hm & Hl2 & Hn2).
+      + lia.
+      + lia.
+      + rewrite N.pow_0_r, N.mod_1_r. symmetry. apply B_0_0.
       + exists tmp2. split; [exact Hm|]. split; [congruence|exact Hn2]. }
   destruct Hpad as (tmp2 & Hp & Hlen2 & Hn2). rewrite Hp. cbn [bind].
   destruct (climb_ok ld (rng leaf 0 count) (nat_of (ld - depth)) depth tmp2)
@@ -451,7 +477,7 @@ Qed.
 Lemma pad32_le8 len : len < 2 ^ 64 -> pad32 (le_bytes 8 len) = pad32 (le_bytes 32 len).
 Proof.
   intros Hlen. rewrite (pad32_exact (le_bytes 32 len)) by apply le_bytes_length.
-  change 32%nat with (8 + 24)%nat at 2. rewrite le_bytes_small by exact Hlen.
+  change (le_bytes 32 len) with (le_bytes (8 + 24) len). rewrite le_bytes_small by exact Hlen.
   cbn [le_bytes]. reflexivity.
 Qed.
 
@@ -461,7 +487,7 @@ Proof. intros Hlen. unfold mixin, mix_in_length. rewrite pad32_le8 by exact Hlen
 Lemma pad32_le1 sel : sel < 256 -> pad32 [byte_of_N sel] = pad32 (le_bytes 32 sel).
 Proof.
   intros Hs. rewrite (pad32_exact (le_bytes 32 sel)) by apply le_bytes_length.
-  change 32%nat with (1 + 31)%nat at 2. rewrite le_bytes_small by exact Hs.
+  change (le_bytes 32 sel) with (le_bytes (1 + 31) sel). rewrite le_bytes_small by exact Hs.
   cbn [le_bytes]. reflexivity.
 Qed.
 
@@ -544,10 +570,11 @@ Proof.
   destruct bs as [|b bs]; [reflexivity|].
   cbn [chunkify_fuel]. set (l := b :: bs) in *.
   assert (Hl : (0 < length l)%nat) by (subst l; cbn [length]; lia).
-  replace ((length l + 31) / 32)%nat with (S ((length (skipn 32 l) + 31) / 32))
-    by (rewrite skipn_length; lia).
-  cbn [seq map]. rewrite Nat.mul_0_r. cbn [skipn]. f_equal.
-  rewrite IH by (rewrite skipn_length; lia).
+  assert (Hsk : length (skipn 32 l) = (length l - 32)%nat) by apply skipn_length.
+  set (l' := skipn 32 l) in *.
+  replace ((length l + 31) / 32)%nat with (S ((length l' + 31) / 32)) by lia.
+  cbn [seq map]. rewrite Nat.mul_0_r. change (skipn 0 l) with l. f_equal.
+  rewrite IH by lia.
   rewrite <- seq_shift, map_map. apply map_ext. intros i.
   replace (32 * S i)%nat with (32 + 32 * i)%nat by lia. rewrite skipn_add. reflexivity.
 Qed.
@@ -663,4 +690,548 @@ Proof.
   do 3 f_equal. lia.
 Qed.
 
+(* ---- bit strings ---- *)
+
+Lemma lenN_btb bits : lenN (bits_to_bytes bits) = (lenN bits + 7) / 8.
+Proof. unfold lenN. rewrite btb_length. lia. Qed.
+
+Lemma bit_vector_correct bits : lenN bits < 2 ^ 64 ->
+  bit_vector_htr H zh (bits_to_bytes bits) =
+  OK (merkleize_spec H (pack_bits bits) ((lenN bits + 255) / 256)).
+Proof.
+  intros Hlen. unfold bit_vector_htr, chunks_htr. fold (lenN (bits_to_bytes bits)).
+  set (chunks := (lenN (bits_to_bytes bits) + 31) / 32).
+  assert (Hch : chunks = (lenN bits + 255) / 256) by (subst chunks; rewrite lenN_btb; lia).
+  change (2 ^ 64) with 18446744073709551616 in *.
+  rewrite merkleize_correct by (try apply N.le_refl; change (2 ^ 64) with 18446744073709551616; lia).
+  rewrite (leaves_ext _ (bytes_chunk (bits_to_bytes bits))).
+  - subst chunks. rewrite <- pack_leaves. rewrite <- Hch. reflexivity.
+  - intros i Hi. destruct (N.ltb_spec i chunks) as [_|Hge]; [reflexivity|lia].
+Qed.
+
+Lemma pad32_short l : (length l <= 32)%nat -> pad32 l = l ++ repeat b0 (32 - length l).
+Proof.
+  intros Hl. unfold pad32, pad_to, zero_bytes.
+  rewrite firstn_app, firstn_all2 by exact Hl. f_equal. rewrite firstn_repeat'. f_equal. lia.
+Qed.
+
+Lemma ldiff_delim r : N.ldiff (bits_val r + 2 ^ lenN r) (2 ^ lenN r) = bits_val r.
+Proof.
+  pose proof (delim_clear r) as Hx. pose proof (bits_val_bound r) as Hb.
+  change (BitfieldsProofs.lenN r) with (lenN r) in *.
+  apply N.bits_inj. intros k. rewrite N.ldiff_spec.
+  assert (Hk := f_equal (fun z => N.testbit z k) Hx). cbn beta in Hk.
+  rewrite N.lxor_spec in Hk.
+  destruct (N.eq_dec k (lenN r)) as [->|Hne].
+  - rewrite N.pow2_bits_true.
+    rewrite (testbit_small (bits_val r) (lenN r) (lenN r) Hb) by apply N.le_refl.
+    apply andb_false_r.
+  - rewrite N.pow2_bits_false in * by (intro; apply Hne; symmetry; assumption).
+    rewrite <- Hk. destruct (N.testbit _ _); reflexivity.
+Qed.
+
+Lemma chunk_full (P T : list byte) i : (32 * (i + 1) <= length P)%nat ->
+  firstn 32 (skipn (32 * i) (P ++ T)) = firstn 32 (skipn (32 * i) P).
+Proof.
+  intros HP. rewrite skipn_app, firstn_app, skipn_length.
+  replace (32 - (length P - 32 * i))%nat with 0%nat by lia.
+  cbn [firstn]. apply app_nil_r.
+Qed.
+
+Lemma bitlist_chunk_correct bits i : lenN bits < 2 ^ 63 -> i < (lenN bits + 255) / 256 ->
+  bitlist_chunk (bits_to_bytes (bits ++ [true])) (lenN bits) ((lenN bits + 255) / 256) i =
+  bytes_chunk (bits_to_bytes bits) i.
+Proof.
+  intros Hlen Hi. change (2 ^ 63) with 9223372036854775808 in Hlen.
+  destruct (split8 bits) as (A & r & q & E & HA & Hr). subst bits.
+  set (n := lenN (A ++ r)) in *.
+  assert (Hn : n = N.of_nat (8 * q + length r)).
+  { subst n. unfold lenN. rewrite app_length, HA. reflexivity. }
+  rewrite <- app_assoc, (btb_app8 q A r), (btb_app8 q A (r ++ [true])) by exact HA.
+  rewrite (btb_small (r ++ [true])) by (rewrite app_length; cbn [length]; lia).
+  rewrite bits_val_snoc_true. change (BitfieldsProofs.lenN r) with (lenN r).
+  set (P := bits_to_bytes A). assert (HP : length P = q) by (apply btb_length8, HA).
+  set (x := byte_of_N (bits_val r + 2 ^ lenN r)).
+  unfold bitlist_chunk.
+  destruct (N.ltb_spec i ((n + 255) / 256)) as [_|Hge]; [|lia].
+  rewrite wrap64_small' by (rewrite N.shiftl_mul_pow2; change (2 ^ 8) with 256;
+                            change (2 ^ 64) with 18446744073709551616; lia).
+  rewrite N.shiftl_mul_pow2. change (2 ^ 8) with 256.
+  unfold bytes_chunk, nat_of.
+  set (ii := N.to_nat i).
+  replace (N.to_nat (32 * i)) with (32 * ii)%nat by lia.
+  destruct (N.ltb_spec n ((i + 1) * 256)) as [Hlt|Hge].
+  - (* the delimiter bit lies in chunk i *)
+    assert (Hq1 : (32 * ii <= q)%nat) by lia.
+    assert (Hq2 : (q < 32 * (ii + 1))%nat) by lia.
+    change 255 with (N.ones 8). rewrite !N.land_ones, !shiftr3, land7.
+    change (2 ^ 8) with 256.
+    replace (N.to_nat (n mod 256 / 8)) with (q - 32 * ii)%nat by lia.
+    replace (n mod 8) with (lenN r) by (unfold lenN; lia).
+    set (k := (q - 32 * ii)%nat).
+    rewrite !skipn_app. replace (32 * ii - length P)%nat with 0%nat by lia.
+    change (skipn 0 [x]) with [x]. change (skipn 0 (bits_to_bytes r)) with (bits_to_bytes r).
+    set (P' := skipn (32 * ii) P).
+    assert (HP' : length P' = k) by (subst P' k; rewrite skipn_length; lia).
+    assert (Hk : (k < 32)%nat) by (subst k; lia).
+    rewrite (firstn_all2 (n := 32) (P' ++ [x])) by (rewrite app_length; cbn [length]; lia).
+    rewrite (pad32_short (P' ++ [x])) by (rewrite app_length; cbn [length]; lia).
+    rewrite <- app_assoc. cbn [app].
+    replace k with (length P' + 0)%nat at 1 2 by lia.
+    rewrite app_nth2_plus. cbn [nth]. rewrite list_set_app_r. cbn [list_set].
+    subst x. rewrite BitfieldsProofs.N_of_byte_of_N by (apply delim_lt256; exact Hr).
+    rewrite ldiff_delim.
+    destruct r as [|b r].
+    + (* no bits in the last byte: it becomes zero = padding *)
+      change (bits_to_bytes []) with (@nil byte). rewrite app_nil_r.
+      rewrite (firstn_all2 (n := 32) P') by lia.
+      rewrite (pad32_short P') by lia. f_equal.
+      rewrite app_length. cbn [length bits_val].
+      change (byte_of_N 0) with b0.
+      replace (32 - length P')%nat with (S (32 - (length P' + 1)))%nat by lia.
+      reflexivity.
+    + rewrite (btb_small (b :: r)) by (cbn [length] in *; lia).
+      rewrite (firstn_all2 (n := 32) (P' ++ _)) by (rewrite app_length; cbn [length]; lia).
+      rewrite (pad32_short (P' ++ _)) by (rewrite app_length; cbn [length]; lia).
+      rewrite <- app_assoc, !app_length. reflexivity.
+  - (* all 256 bits of chunk i are data bits *)
+    rewrite !chunk_full by lia. reflexivity.
+Qed.
+
+Lemma bit_list_correct bits limit : lenN bits <= limit -> limit < 2 ^ 63 ->
+  bit_list_htr H zh (bits_to_bytes (bits ++ [true])) limit =
+  OK (mix_in_length H (merkleize_spec H (pack_bits bits) ((limit + 255) / 256)) (lenN bits)).
+Proof.
+  intros Hle Hlim. unfold bit_list_htr, chunks_htr.
+  change (bits_to_bytes (bits ++ [true])) with (pack_bitlist bits).
+  assert (Hl63 : lenN bits < 2 ^ 63) by lia.
+  change (2 ^ 63) with 9223372036854775808 in *.
+  rewrite bitlist_len_pack
+    by (change (BitfieldsProofs.lenN bits) with (lenN bits);
+        change (2 ^ 64) with 18446744073709551616; lia).
+  change (BitfieldsProofs.lenN bits) with (lenN bits).
+  rewrite !wrap64_small' by (change (2 ^ 64) with 18446744073709551616; lia).
+  rewrite !shiftr8.
+  rewrite merkleize_correct by (change (2 ^ 64) with 18446744073709551616; lia).
+  cbn [bind]. rewrite mixin_correct by (change (2 ^ 64) with 18446744073709551616; lia).
+  do 2 f_equal. unfold merkleize_spec. f_equal.
+  rewrite (leaves_ext _ (bytes_chunk (bits_to_bytes bits))).
+  - unfold pack_bits. change (chunkify (bits_to_bytes bits)) with (pack (bits_to_bytes bits)).
+    rewrite pack_leaves. f_equal. rewrite lenN_btb. lia.
+  - intros i Hi. apply bitlist_chunk_correct; assumption.
+Qed.
+
 End WithHash.
+
+(* ------------------------------------------------------------------------------------ *)
+(* E. composition over the generic flat value of Codec.v                                 *)
+
+From Ztyp Require Import Reader Codec Repr.
+
+(* every container has fewer than 2^64 fields (a Go slice cannot be longer); the other
+   parameters are bounded by [small_params] (Repr.v) *)
+Fixpoint small_fields (t : ty) : bool :=
+  match t with
+  | TVector e _ | TList e _ => small_fields e
+  | TContainer fs => (lenN fs <? 2 ^ 64) && forallb small_fields fs
+  | TUnion _ opts => forallb small_fields opts
+  | _ => true
+  end.
+
+Section TyInd.
+  Variable P : ty -> Prop.
+  Hypothesis HUint : forall w, P (TUint w).
+  Hypothesis HBool : P TBool.
+  Hypothesis HBytes : forall n, P (TBytes n).
+  Hypothesis HRoot : P TRoot.
+  Hypothesis HBitvector : forall n, P (TBitvector n).
+  Hypothesis HBitlist : forall n, P (TBitlist n).
+  Hypothesis HVector : forall e n, P e -> P (TVector e n).
+  Hypothesis HList : forall e n, P e -> P (TList e n).
+  Hypothesis HContainer : forall fs, Forall P fs -> P (TContainer fs).
+  Hypothesis HUnion : forall none opts, Forall P opts -> P (TUnion none opts).
+
+  Fixpoint ty_ind_nested (t : ty) : P t :=
+    match t with
+    | TUint w => HUint w
+    | TBool => HBool
+    | TBytes n => HBytes n
+    | TRoot => HRoot
+    | TBitvector n => HBitvector n
+    | TBitlist n => HBitlist n
+    | TVector e n => HVector e n (ty_ind_nested e)
+    | TList e n => HList e n (ty_ind_nested e)
+    | TContainer fs =>
+      HContainer fs ((fix go (l : list ty) : Forall P l :=
+                        match l with
+                        | [] => Forall_nil P
+                        | x :: r => Forall_cons x (ty_ind_nested x) (go r)
+                        end) fs)
+    | TUnion none opts =>
+      HUnion none opts ((fix go (l : list ty) : Forall P l :=
+                           match l with
+                           | [] => Forall_nil P
+                           | x :: r => Forall_cons x (ty_ind_nested x) (go r)
+                           end) opts)
+    end.
+End TyInd.
+
+(* the local loops of flat_htr / spec_htr / has_type, named *)
+Definition go_list (f : val -> res chunk) : list val -> res (list chunk) :=
+  fix go (vs : list val) : res (list chunk) :=
+    match vs with
+    | [] => OK []
+    | x :: r => do c <- f x; do cs <- go r; OK (c :: cs)
+    end.
+
+Definition go_fields (f : ty -> val -> res chunk) : list ty -> list val -> res (list chunk) :=
+  fix go (fs : list ty) (vs : list val) : res (list chunk) :=
+    match fs, vs with
+    | f0 :: fs', x :: vs' => do c <- f f0 x; do cs <- go fs' vs'; OK (c :: cs)
+    | _, _ => OK []
+    end.
+
+Definition spec_fields (f : ty -> val -> chunk) : list ty -> list val -> list chunk :=
+  fix go (fs : list ty) (vs : list val) : list chunk :=
+    match fs, vs with
+    | f0 :: fs', x :: vs' => f f0 x :: go fs' vs'
+    | _, _ => []
+    end.
+
+Definition type_fields : list ty -> list val -> bool :=
+  fix go (fs : list ty) (vs : list val) : bool :=
+    match fs, vs with
+    | [], [] => true
+    | f :: fs', x :: vs' => has_type x f && go fs' vs'
+    | _, _ => false
+    end.
+
+Definition pick_opt {A} (d : A) (f : ty -> A) : list ty -> nat -> A :=
+  fix pick (os : list ty) (k : nat) : A :=
+    match os, k with
+    | [], _ => d
+    | o :: _, O => f o
+    | _ :: os', S k' => pick os' k'
+    end.
+
+Lemma pick_opt_nth {A} (d : A) f : forall os k,
+  pick_opt d f os k = match nth_error os k with Some o => f o | None => d end.
+Proof.
+  induction os as [|o os IH]; intros [|k]; cbn [pick_opt nth_error]; try reflexivity.
+  apply IH.
+Qed.
+
+Lemma forallb_In {A} (p : A -> bool) l x : forallb p l = true -> In x l -> p x = true.
+Proof. intros Hf Hin. rewrite forallb_forall in Hf. apply Hf, Hin. Qed.
+
+Lemma lenN_ser_uint w : forall vs, forallb (fun x => has_type x (TUint w)) vs = true ->
+  lenN (flat_map (spec_ser (TUint w)) vs) = lenN vs * w.
+Proof.
+  induction vs as [|x vs IH]; intros Hty; [reflexivity|].
+  cbn [forallb] in Hty. apply andb_prop in Hty. destruct Hty as [Hx Hvs].
+  cbn [flat_map]. unfold lenN in *. rewrite app_length, Nat2N.inj_add, IH by exact Hvs.
+  destruct x; try discriminate. cbn [spec_ser length]. rewrite le_bytes_length.
+  unfold nat_of. lia.
+Qed.
+
+Lemma lenN_ser_bool : forall vs, forallb (fun x => has_type x TBool) vs = true ->
+  lenN (flat_map (spec_ser TBool) vs) = lenN vs.
+Proof.
+  induction vs as [|x vs IH]; intros Hty; [reflexivity|].
+  cbn [forallb] in Hty. apply andb_prop in Hty. destruct Hty as [Hx Hvs].
+  cbn [flat_map]. unfold lenN in *. rewrite app_length, Nat2N.inj_add, IH by exact Hvs.
+  destruct x; try discriminate. cbn [spec_ser length]. lia.
+Qed.
+
+Lemma u64_vals : forall vs, forallb (fun x => has_type x (TUint 8)) vs = true ->
+  flat_map (le_bytes 8) (map (fun x => match x with VUint k => k | _ => 0 end) vs) =
+  flat_map (spec_ser (TUint 8)) vs.
+Proof.
+  induction vs as [|x vs IH]; intros Hty; [reflexivity|].
+  cbn [forallb] in Hty. apply andb_prop in Hty. destruct Hty as [Hx Hvs].
+  cbn [map flat_map]. rewrite IH by exact Hvs. destruct x; try discriminate. reflexivity.
+Qed.
+
+Section FlatHtr.
+Variable H : chunk -> chunk -> chunk.
+Variable zh : nat -> chunk.
+Hypothesis Hzh : forall d, zh d = zero_hash H d.
+
+Lemma small_byte_vector bs : 1 <= lenN bs -> lenN bs <= 32 ->
+  merkleize_spec H (pack bs) ((lenN bs + 31) / 32) = pad32 bs.
+Proof.
+  intros H1 H32. replace ((lenN bs + 31) / 32) with 1 by lia.
+  unfold merkleize_spec. change (depth_for 1) with 0%nat.
+  destruct bs as [|b bs]; [unfold lenN in H1; cbn [length] in H1; lia|].
+  unfold pack, chunkify. cbn [length chunkify_fuel merkle_virtual].
+  rewrite firstn_all2 by (unfold lenN in H32; lia). reflexivity.
+Qed.
+
+Definition htr_ok (t : ty) : Prop :=
+  wf_ty t = true -> small_params t = true -> small_fields t = true ->
+  forall v, has_type v t = true -> flat_htr H zh t v = OK (spec_htr H t v).
+
+Lemma go_list_ok e : htr_ok e -> wf_ty e = true -> small_params e = true ->
+  small_fields e = true -> forall vs, forallb (fun x => has_type x e) vs = true ->
+  go_list (flat_htr H zh e) vs = OK (map (spec_htr H e) vs).
+Proof.
+  intros He Hwf Hsp Hsf. induction vs as [|x vs IH]; intros Hty; [reflexivity|].
+  cbn [forallb] in Hty. apply andb_prop in Hty. destruct Hty as [Hx Hvs].
+  cbn [go_list map]. rewrite (He Hwf Hsp Hsf x Hx). cbn [bind].
+  fold (go_list (flat_htr H zh e)). rewrite IH by exact Hvs. reflexivity.
+Qed.
+
+Lemma go_fields_ok : forall fs, Forall htr_ok fs -> forallb wf_ty fs = true ->
+  forallb small_params fs = true -> forallb small_fields fs = true ->
+  forall vs, type_fields fs vs = true ->
+  go_fields (flat_htr H zh) fs vs = OK (spec_fields (spec_htr H) fs vs) /\
+  length (spec_fields (spec_htr H) fs vs) = length fs.
+Proof.
+  induction fs as [|f fs IH]; intros HF Hwf Hsp Hsf vs Hty.
+  - destruct vs; [split; reflexivity|discriminate].
+  - destruct vs as [|x vs]; [discriminate|].
+    cbn [forallb type_fields] in *.
+    apply andb_prop in Hwf, Hsp, Hsf, Hty.
+    destruct Hwf as [Hwf1 Hwf2], Hsp as [Hsp1 Hsp2], Hsf as [Hsf1 Hsf2], Hty as [Hx Hvs].
+    fold type_fields in Hvs.
+    inversion HF as [|? ? Hf HF']; subst.
+    destruct (IH HF' Hwf2 Hsp2 Hsf2 vs Hvs) as [IH1 IH2].
+    cbn [go_fields spec_fields]. rewrite (Hf Hwf1 Hsp1 Hsf1 x Hx). cbn [bind].
+    fold (go_fields (flat_htr H zh)). fold (spec_fields (spec_htr H)).
+    rewrite IH1. cbn [bind length]. split; [reflexivity|]. rewrite IH2. reflexivity.
+Qed.
+
+Lemma uint_width_bound w : uint_width_ok w = true -> 1 <= w <= 32.
+Proof.
+  unfold uint_width_ok. intros Hw.
+  repeat (apply orb_prop in Hw; destruct Hw as [Hw|Hw]); apply N.eqb_eq in Hw; lia.
+Qed.
+
+Theorem flat_htr_correct : forall t, htr_ok t.
+Proof.
+  induction t as [w| |n| |n|n|e n IHe|e n IHe|fs IHfs|none opts IHopts] using ty_ind_nested;
+    intros Hwf Hsp Hsf v Hty.
+  - reflexivity.
+  - reflexivity.
+  - (* BytesN *)
+    destruct v; try discriminate. cbn [has_type wf_ty] in *.
+    apply N.eqb_eq in Hty. apply andb_prop in Hwf. destruct Hwf as [Hn1 Hn32].
+    apply N.leb_le in Hn1, Hn32. fold (lenN bs) in Hty.
+    cbn [flat_htr spec_htr]. rewrite byte_vector_correct by (try exact Hzh; change (2 ^ 64) with 18446744073709551616; lia).
+    rewrite small_byte_vector by lia. reflexivity.
+  - destruct v; try discriminate. reflexivity.
+  - (* Bitvector *)
+    destruct v; try discriminate. cbn [has_type small_params] in *.
+    apply N.eqb_eq in Hty. apply N.leb_le in Hsp. fold (lenN bs) in Hty.
+    cbn [flat_htr spec_htr].
+    change (2 ^ 56) with 72057594037927936 in Hsp.
+    rewrite bit_vector_correct by (try exact Hzh; change (2 ^ 64) with 18446744073709551616; lia).
+    rewrite Hty. reflexivity.
+  - (* Bitlist *)
+    destruct v; try discriminate. cbn [has_type small_params] in *.
+    apply N.leb_le in Hty, Hsp. fold (lenN bs) in Hty.
+    cbn [flat_htr spec_htr].
+    change (2 ^ 56) with 72057594037927936 in Hsp.
+    rewrite bit_list_correct by (try exact Hzh; try exact Hty; change (2 ^ 63) with 9223372036854775808; lia).
+    reflexivity.
+  - (* Vector *)
+    destruct v; try discriminate. cbn [has_type wf_ty small_params small_fields] in *.
+    apply andb_prop in Hty, Hwf, Hsp.
+    destruct Hty as [Hlen Hvs], Hwf as [Hn1 Hwfe], Hsp as [Hn56 Hspe].
+    apply N.eqb_eq in Hlen. apply N.leb_le in Hn56. fold (lenN vs) in Hlen.
+    change (2 ^ 56) with 72057594037927936 in Hn56.
+    assert (Hgen : spec_basic e = false ->
+      flat_htr H zh (TVector e n) (VSeq vs) =
+      (do rs <- go_list (flat_htr H zh e) vs;
+       complex_vector_htr H zh (fun i => nth (nat_of i) rs zero_chunk) (lenN vs))).
+    { destruct e; try discriminate; reflexivity. }
+    destruct (spec_basic e) eqn:Hbasic.
+    + destruct e; try discriminate.
+      * (* uintN elements *)
+        cbn [wf_ty] in Hwfe. apply uint_width_bound in Hwfe.
+        pose proof (lenN_ser_uint w vs Hvs) as Hbl.
+        cbn [flat_htr spec_htr spec_basic]. unfold chunk_count_basic. cbn [spec_fixed_len].
+        destruct (N.eqb_spec w 1) as [->|Hw1]; [|destruct (N.eqb_spec w 8) as [->|Hw8]].
+        -- rewrite byte_vector_correct by (try exact Hzh; rewrite Hbl; change (2 ^ 64) with 18446744073709551616; lia).
+           rewrite Hbl, Hlen. reflexivity.
+        -- rewrite uint64_vector_correct
+             by (try exact Hzh; rewrite lenN_map;
+                 change (2 ^ 60) with 1152921504606846976; lia).
+           rewrite u64_vals by exact Hvs. rewrite lenN_map, Hlen. reflexivity.
+        -- fold (lenN (flat_map (spec_ser (TUint w)) vs)).
+           rewrite chunks_correct
+             by (try exact Hzh; try apply N.le_refl; rewrite Hbl;
+                 change (2 ^ 64) with 18446744073709551616; nia).
+           rewrite Hbl, Hlen. reflexivity.
+      * (* bool elements *)
+        pose proof (lenN_ser_bool vs Hvs) as Hbl.
+        cbn [flat_htr spec_htr spec_basic]. unfold chunk_count_basic. cbn [spec_fixed_len].
+        fold (lenN (flat_map (spec_ser TBool) vs)).
+        rewrite chunks_correct
+          by (try exact Hzh; try apply N.le_refl; rewrite Hbl;
+              change (2 ^ 64) with 18446744073709551616; lia).
+        rewrite Hbl, Hlen, N.mul_1_r. reflexivity.
+    + rewrite (Hgen eq_refl).
+      rewrite (go_list_ok e IHe Hwfe Hspe Hsf vs Hvs). cbn [bind].
+      replace (lenN vs) with (lenN (map (spec_htr H e) vs)) by apply lenN_map.
+      rewrite complex_vector_nth
+        by (try exact Hzh; rewrite lenN_map; change (2 ^ 64) with 18446744073709551616; lia).
+      rewrite lenN_map, Hlen.
+      destruct e; try discriminate; reflexivity.
+  - (* List *)
+    destruct v; try discriminate. cbn [has_type wf_ty small_params small_fields] in *.
+    apply andb_prop in Hty, Hsp.
+    destruct Hty as [Hlen Hvs], Hsp as [Hn56 Hspe].
+    apply N.leb_le in Hlen. apply N.leb_le in Hn56. fold (lenN vs) in Hlen.
+    change (2 ^ 56) with 72057594037927936 in Hn56.
+    assert (Hgen : spec_basic e = false ->
+      flat_htr H zh (TList e n) (VSeq vs) =
+      (do rs <- go_list (flat_htr H zh e) vs;
+       complex_list_htr H zh (fun i => nth (nat_of i) rs zero_chunk) (lenN vs) n)).
+    { destruct e; try discriminate; reflexivity. }
+    destruct (spec_basic e) eqn:Hbasic.
+    + destruct e; try discriminate.
+      * cbn [wf_ty] in Hwf. apply uint_width_bound in Hwf.
+        pose proof (lenN_ser_uint w vs Hvs) as Hbl.
+        cbn [flat_htr spec_htr spec_basic]. unfold chunk_count_basic. cbn [spec_fixed_len].
+        destruct (N.eqb_spec w 1) as [->|Hw1]; [|destruct (N.eqb_spec w 8) as [->|Hw8]].
+        -- rewrite byte_list_correct
+             by (try exact Hzh; rewrite ?Hbl; change (2 ^ 63) with 9223372036854775808; lia).
+           rewrite Hbl, !N.mul_1_r. reflexivity.
+        -- rewrite uint64_list_correct
+             by (try exact Hzh; rewrite ?lenN_map;
+                 change (2 ^ 60) with 1152921504606846976; lia).
+           rewrite u64_vals by exact Hvs. rewrite lenN_map. reflexivity.
+        -- fold (lenN (flat_map (spec_ser (TUint w)) vs)).
+           rewrite chunks_correct
+             by (try exact Hzh; rewrite ?Hbl;
+                 change (2 ^ 64) with 18446744073709551616; nia).
+           cbn [bind]. rewrite mixin_correct by (change (2 ^ 64) with 18446744073709551616; lia).
+           reflexivity.
+      * pose proof (lenN_ser_bool vs Hvs) as Hbl.
+        cbn [flat_htr spec_htr spec_basic]. unfold chunk_count_basic. cbn [spec_fixed_len].
+        fold (lenN (flat_map (spec_ser TBool) vs)).
+        rewrite chunks_correct
+          by (try exact Hzh; rewrite ?Hbl; change (2 ^ 64) with 18446744073709551616; lia).
+        cbn [bind]. rewrite mixin_correct by (change (2 ^ 64) with 18446744073709551616; lia).
+        rewrite N.mul_1_r. reflexivity.
+    + rewrite (Hgen eq_refl).
+      rewrite (go_list_ok e IHe Hwf Hspe Hsf vs Hvs). cbn [bind].
+      replace (lenN vs) with (lenN (map (spec_htr H e) vs)) by apply lenN_map.
+      rewrite complex_list_nth
+        by (try exact Hzh; rewrite ?lenN_map; change (2 ^ 64) with 18446744073709551616; lia).
+      rewrite lenN_map.
+      destruct e; try discriminate; reflexivity.
+  - (* Container *)
+    destruct v; try discriminate.
+    change (has_type (VCont vs) (TContainer fs)) with (type_fields fs vs) in Hty.
+    cbn [wf_ty small_params small_fields] in *.
+    apply andb_prop in Hwf, Hsf. destruct Hwf as [_ Hwf], Hsf as [Hn Hsf].
+    apply N.ltb_lt in Hn.
+    destruct (go_fields_ok fs IHfs Hwf Hsp Hsf vs Hty) as [Hgo Hlen].
+    change (flat_htr H zh (TContainer fs) (VCont vs))
+      with (do rs <- go_fields (flat_htr H zh) fs vs; fields_htr H zh rs).
+    change (spec_htr H (TContainer fs) (VCont vs))
+      with (merkleize_spec H (spec_fields (spec_htr H) fs vs) (lenN fs)).
+    rewrite Hgo. cbn [bind].
+    assert (HlenN : lenN (spec_fields (spec_htr H) fs vs) = lenN fs)
+      by (unfold lenN; rewrite Hlen; reflexivity).
+    rewrite fields_correct by (try exact Hzh; rewrite HlenN; exact Hn).
+    rewrite HlenN. reflexivity.
+  - (* Union *)
+    destruct v as [| | | | | |sel ov]; try discriminate.
+    cbn [wf_ty small_params small_fields] in *.
+    apply andb_prop in Hwf. destruct Hwf as [Hwf Hwfo]. apply andb_prop in Hwf.
+    destruct Hwf as [_ Hcount]. apply N.leb_le in Hcount. unfold union_count in Hcount.
+    set (k := nat_of (if none then sel - 1 else sel)).
+    change (has_type (VUnion sel ov) (TUnion none opts)) with
+      (if none && (sel =? 0) then match ov with None => true | Some _ => false end
+       else pick_opt false (fun o => match ov with Some x => has_type x o | None => false end)
+                     opts k) in Hty.
+    rewrite pick_opt_nth in Hty.
+    destruct ov as [x|].
+    + change (flat_htr H zh (TUnion none opts) (VUnion sel (Some x))) with
+        (pick_opt Err (fun o => do c <- flat_htr H zh o x; OK (union_htr H sel (Some c))) opts k).
+      change (spec_htr H (TUnion none opts) (VUnion sel (Some x))) with
+        (mix_in_selector H (pick_opt zero_chunk (fun o => spec_htr H o x) opts k) sel).
+      rewrite !pick_opt_nth.
+      destruct (none && (sel =? 0)) eqn:Hnone; [discriminate|].
+      destruct (nth_error opts k) as [o|] eqn:Hnth; [|discriminate].
+      assert (Hin : In o opts) by (eapply nth_error_In; exact Hnth).
+      assert (Hk : (k < length opts)%nat) by (apply nth_error_Some; congruence).
+      rewrite Forall_forall in IHopts.
+      rewrite (IHopts o Hin (forallb_In _ _ _ Hwfo Hin) (forallb_In _ _ _ Hsp Hin)
+                 (forallb_In _ _ _ Hsf Hin) x Hty).
+      cbn [bind]. rewrite union_correct_some; [reflexivity|].
+      subst k. unfold nat_of in Hk. destruct none; lia.
+    + destruct (none && (sel =? 0)) eqn:Hnone.
+      * apply andb_prop in Hnone. destruct Hnone as [_ Hs]. apply N.eqb_eq in Hs. subst sel.
+        reflexivity.
+      * destruct (nth_error opts k); discriminate.
+Qed.
+
+(* the hypotheses are satisfiable by a non-trivial value *)
+Example flat_htr_ex_ty : ty :=
+  TContainer [TUint 8; TList (TUint 2) 5; TBitlist 9; TVector TRoot 2;
+              TUnion true [TBool; TBytes 3]].
+Example flat_htr_ex_val : val :=
+  VCont [VUint 7; VSeq [VUint 1; VUint 513]; VBits [true; false; true];
+         VSeq [VBytes (zero_bytes 32); VBytes (zero_bytes 32)];
+         VUnion 2 (Some (VBytes [Byte.x01; Byte.x02; Byte.x03]))].
+Example flat_htr_ex_hyps :
+  wf_ty flat_htr_ex_ty = true /\ small_params flat_htr_ex_ty = true /\
+  small_fields flat_htr_ex_ty = true /\ has_type flat_htr_ex_val flat_htr_ex_ty = true.
+Proof. repeat split; vm_compute; reflexivity. Qed.
+
+End FlatHtr.
+
+(* over the limit the routine silently merkleizes the first [limit] leaves (outside C08) *)
+Lemma merkleize_over_limit H zh count limit leaf : limit < count ->
+  merkleize H zh count limit leaf = merkleize H zh limit limit leaf.
+Proof.
+  intros Hlt. unfold merkleize.
+  replace (limit <? count) with true by (symmetry; apply N.ltb_lt; exact Hlt).
+  rewrite N.ltb_irrefl. reflexivity.
+Qed.
+
+(* ------------------------------------------------------------------------------------ *)
+(* F. examples: the hypotheses of the theorems are satisfiable, and model and spec agree *)
+(*    on concrete runs (toy hash of MerkleProofs.v)                                      *)
+
+Definition ex_leaf (i : N) : chunk := [byte_of_N (i + 1); byte_of_N (2 * i)].
+
+Example merkleize_ex_hyps : 5 <= 8 /\ 8 < 2 ^ 64.
+Proof. split; [discriminate|reflexivity]. Qed.
+
+Example merkleize_ex :
+  merkleize toy_H toy_zh 5 8 ex_leaf =
+  OK (merkleize_spec toy_H (map ex_leaf (map N.of_nat (seq 0 (N.to_nat 5)))) 8)
+  /\ merkleize toy_H toy_zh 5 8 ex_leaf <> merkleize toy_H toy_zh 4 8 ex_leaf.
+Proof. split; vm_compute; [reflexivity|discriminate]. Qed.
+
+Example helpers_ex_hyps :
+  lenN [Byte.x01; Byte.x02; Byte.x03] <= 40 /\ 40 < 2 ^ 63 /\
+  lenN [true; false; true] <= 300 /\ 300 < 2 ^ 63 /\
+  lenN [5; 6; 7; 8; 9] <= 9 /\ 9 < 2 ^ 60 /\ 200 < 256.
+Proof. repeat split; vm_compute; reflexivity || discriminate. Qed.
+
+Example helpers_ex :
+  byte_list_htr toy_H toy_zh [Byte.x01; Byte.x02; Byte.x03] 40 =
+    OK (mix_in_length toy_H (merkleize_spec toy_H (pack [Byte.x01; Byte.x02; Byte.x03]) ((40 + 31) / 32)) 3)
+  /\ bit_list_htr toy_H toy_zh (bits_to_bytes ([true; false; true] ++ [true])) 300 =
+    OK (mix_in_length toy_H (merkleize_spec toy_H (pack_bits [true; false; true]) ((300 + 255) / 256)) 3)
+  /\ uint64_list_htr toy_H toy_zh [5; 6; 7; 8; 9] 9 =
+    OK (mix_in_length toy_H (merkleize_spec toy_H (pack (flat_map (le_bytes 8) [5; 6; 7; 8; 9]))
+                                            ((9 * 8 + 31) / 32)) 5).
+Proof. repeat split; vm_compute; reflexivity. Qed.
+
+(* the bound on the byte limit is needed: (limit + 31) wraps in uint64 *)
+Example byte_list_limit_wrap :
+  byte_list_htr toy_H toy_zh [Byte.x01] (2 ^ 64 - 1) <>
+  OK (mix_in_length toy_H (merkleize_spec toy_H (pack [Byte.x01]) ((2 ^ 64 - 1 + 31) / 32)) 1).
+Proof. vm_compute. discriminate. Qed.
+
+Example flat_htr_ex :
+  flat_htr toy_H toy_zh flat_htr_ex_ty flat_htr_ex_val =
+  OK (spec_htr toy_H flat_htr_ex_ty flat_htr_ex_val).
+Proof. vm_compute. reflexivity. Qed.
